@@ -362,6 +362,22 @@ def explore(runner, bound: int, on_execution, max_executions: int | None = None)
     return count, capped
 
 
+REPLAY_STRIDE = 16  # every 16th execution of a layer is run a second time (on whichever worker is free then)
+REPLAY_STATS = {'replayed_twice': 0, 'divergences': 0}
+
+
+def replay_some(pool, run_one, params, layer_choices, results, what=lambda r: r[0]):
+    """Determinism is owned, and shown: a fixed fraction of the executions is run twice and must be observed identically
+    (a divergence is an error of the machinery - exit 2 - never a verdict)."""
+    idx = list(range(0, len(layer_choices), REPLAY_STRIDE if len(layer_choices) > 64 else 1))
+    again = pool.map(run_one, [(params, layer_choices[i]) for i in idx], chunksize=max(1, len(idx) // 64))
+    for i, r2 in zip(idx, again):
+        REPLAY_STATS['replayed_twice'] += 1
+        if what(results[i]) != what(r2):
+            REPLAY_STATS['divergences'] += 1
+            raise core.HarnessError(f'the same schedule {sorted(layer_choices[i].items())} of {params} was observed differently the second time: {str(what(results[i]))[:300]} / {str(what(r2))[:300]}')
+
+
 def explore_layers(pool, run_one, params, bound: int, record, budget=None, cap_layer: int | None = None, menu_filter=None):
     """Level-synchronous version of explore() for a multiprocessing pool.
 
@@ -383,6 +399,7 @@ def explore_layers(pool, run_one, params, bound: int, record, budget=None, cap_l
             caps.append(f'layer {depth} ({len(layer)} executions) not run: time budget')
             break
         results = pool.map(run_one, [(params, c) for c, _ in layer], chunksize=max(1, len(layer) // 256))
+        replay_some(pool, run_one, params, [c for c, _ in layer], results)
         nxt = []
         for (choices, last), (res, menus) in zip(layer, results):
             total += 1
